@@ -18,7 +18,7 @@ def main():
               'shared call sites (invoke, get-then-call, field read/write, compound assignment) fed with '
               'mono/alternating/random receiver sequences, bound methods, undeclared access, arity errors; field and '
               'method results are unique tags; dbg(+stack monitor), rel, dbg with caches forced off'),
-        n_quick=500, n_thorough=15000, layouts=2,
+        n_quick=2000, n_thorough=80000, layouts=2,
         stat_keys=('prop_hits', 'prop_misses', 'inv_hits', 'inv_misses', 'inv_clears', 'prop_clears'),
         requires=[('inv_hits', 500, 10000), ('prop_hits', 200, 5000)])
 
